@@ -31,6 +31,22 @@ PROPS["C16"] = {
     ],
 }
 
+PROPS["C03"] = {
+    "claimed": False,
+    "level_text": "tbd", "level_note": "tbd",
+    "runs": [
+        R("h264-n2", "pkg/format/rtph264", "pkg/format/rtph264", ["ZzC03H264"], params={"N": 2, "K": 1}),
+    ],
+}
+
+PROPS["C08"] = {
+    "claimed": False,
+    "level_text": "tbd", "level_note": "tbd",
+    "runs": [
+        R("fragmented", "pkg/format/rtpfragmented", "pkg/format/rtpfragmented", ["ZzC08FragmentedHist"], params={"K": 2}),
+    ],
+}
+
 NOT_APPLICABLE = {
     "C11": "process-level liveness, timeouts and resource release over goroutines, channels, select, sockets and timers: none of it is executable by a sequential SSA-to-SMT encoder at useful bounds (DESIGN.md §7)",
     "C12": "every API call returning within its timeout, Close leaving no goroutine or socket: scheduling and I/O facts of a 2500-line channel-driven run loop (DESIGN.md §7)",
